@@ -24,7 +24,7 @@ func txnVerifyReqs() []Req {
 }
 
 func checkC09(r *Run) {
-	r.Explain = "(R5) the generated encoder/decoder of coin.Transaction match the schema derived from the type and its tags (so decoding accepts exactly the byte strings encoding can produce, with the same length limits); C09: decides, on every path of coin.Transaction.verify, (R1) that each success return is reachable only after the 15 documented well-formedness conditions were established (guard facts over SSA dominators, loop-quantified facts with their iteration space), (R2) that the function enforces no condition outside the documented set (exhaustive reject mapping), (R3) that the exported entry points are tail calls of verify with the right signed flag and that decoding goes through the exact (whole-buffer) generated decoder whose schema is validated under C21."
+	r.Explain = "(R4+) the zero-value predicates the rule set leans on (Sig.Null, SHA256.Null, Address.Null) compare the whole value with the zero value; (R5) the generated encoder/decoder of coin.Transaction match the schema derived from the type and its tags (so decoding accepts exactly the byte strings encoding can produce, with the same length limits); C09: decides, on every path of coin.Transaction.verify, (R1) that each success return is reachable only after the 15 documented well-formedness conditions were established (guard facts over SSA dominators, loop-quantified facts with their iteration space), (R2) that the function enforces no condition outside the documented set (exhaustive reject mapping), (R3) that the exported entry points are tail calls of verify with the right signed flag and that decoding goes through the exact (whole-buffer) generated decoder whose schema is validated under C21."
 	r.NotDec = "signature mathematics (C14); that SizeHash/hashInner compute the right bytes (C21 covers the codecs); values of concrete transactions"
 	ruleNullPredicates(r, "C09-R4", "cipher.Sig.Null", "cipher.SHA256.Null", "cipher.Address.Null")
 	reqs := txnVerifyReqs()
